@@ -890,6 +890,9 @@ Proof.
     destruct (snd (directive_parts (trim out))) as [e|] eqn:Edp; [|discriminate].
     destruct (parse_define e) as [[[name params] body]|] eqn:Epd; [|discriminate].
     destruct (get_macro (c_macros (p_ctx p)) name); [discriminate|].
+    match type of H with
+      match ?d with Some _ => _ | None => _ end = _ => destruct d; [discriminate|]
+    end.
     inversion H; subst. left. split; [reflexivity|split; [reflexivity|]].
     right; right. exists e, name, params, body. repeat split; try assumption. }
   destruct (starts_with "#" (trim (replace_all_c (c_macros (p_ctx p)) out))).
